@@ -497,6 +497,23 @@ pub fn all() -> Vec<Scenario> {
             }));
         }
     }
+    // base-field challenger: one capacity element altered between two permutations, for every capacity slot
+    for slot in crate::capchain::SLOTS {
+        let id: &'static str = Box::leak(format!("challenger-capacity-chain-base:slot={slot}").into_boxed_str());
+        let r = catch_unwind(AssertUnwindSafe(|| crate::capchain::run_slot(slot)));
+        per_bit.push(match r {
+            Ok((honest_ok, accepted, differs)) => Scenario {
+                id,
+                properties: &["C06"],
+                what: "KoalaBear D1 W16 challenger in a quintic circuit: observe 8, sample c1, observe 8, sample c2; the permutation executor alters ONE capacity element of the first permutation's output and computes everything downstream honestly, so only the row-to-row capacity chain of the Poseidon2 AIR is violated; c2 then differs from the native challenge",
+                honest: if honest_ok { "accepted".into() } else { "honest transcript refused".into() },
+                forged: Some(if accepted { "accepted".into() } else { "rejected".into() }),
+                accepted: accepted && differs,
+                detail: json!({"slot": slot, "c2_differs_from_native": differs}),
+            },
+            Err(_) => Scenario { id, properties: &[], what: "", honest: "panic while constructing the scenario".into(), forged: None, accepted: false, detail: json!({}) },
+        });
+    }
     let fs: Vec<(&str, fn() -> Scenario)> = vec![
         ("non-boolean-bits", s_nonboolean_bits),
         ("bits-of-x-plus-p:n=31", || s_bits_of_x_plus_p(31, 4)),
